@@ -38,6 +38,7 @@ struct Top {
 }  // namespace
 
 extern "C" int harness_main() {
+    register_c01_scalars();
     choose_base(P);
     choose_extra(P, X_COUNT_EVAL, true);
     verif_assume(!P.cyclic);  // cyclic requests are C01_rank's second family
@@ -84,7 +85,7 @@ extern "C" int harness_main() {
     verif_assert(ok_order, "C01.consumer_ran_before_producer");
 
     // ---- value level: glitch-free model, evaluated in statement (= dependency) order per cycle
-    bool ok_val = true;
+    bool ok_val = true, ok_due = true, r_after_failure = false;
     {
         Int cur[MAXID];
         bool has[MAXID];
@@ -102,14 +103,17 @@ extern "C" int harness_main() {
                     if (ready) { done[i] = true; order[no++] = i; }
                 }
         }
+        const int TA = P.extra == X_TRYEXC ? P.n : -1, TB = P.extra == X_TRYEXC ? P.n + 1 : -1, TC = P.extra == X_TRYEXC ? P.n + 2 : -1;
+        const int RC = P.extra == X_REF ? P.n + 1 : -1;
         for (int c = 0; c <= g_cycle; c++) {
-            bool ticked[MAXID];
-            for (int i = 0; i < P.nuser; i++) ticked[i] = false;
+            bool ticked[MAXID], ran[MAXID], due[MAXID], dueknown[MAXID];
+            for (int i = 0; i < P.nuser; i++) ticked[i] = ran[i] = due[i] = dueknown[i] = false;
             for (int oi = 0; oi < no; oi++) {
                 int i = order[oi];
                 if (i == F || i == R) continue;  // feedback values are C08's, reference values C13's subject
                 const EvalRec *rec = nullptr;
                 for (int x = 0; x < g_nev; x++) if (g_ev[x].cycle == c && g_ev[x].id == i) rec = &g_ev[x];
+                ran[i] = rec != nullptr;
                 if (i < P.n && P.kind[i] == K_SRC) {
                     int k = g_src_index[i];
                     if (c < NCYC && g_tick[k][c]) { cur[i] = g_val[k][c]; has[i] = true; ticked[i] = true; }
@@ -124,20 +128,41 @@ extern "C" int harness_main() {
                     if (i == P.n + 2) a = P.n + 1;
                 } else if (P.extra == X_REF) {
                     if (i == P.n + 1) a = P.xp;  // reads xp through the reference
+                } else if (P.extra == X_TRYEXC) {
+                    if (i == TA) a = P.xp;
+                    if (i == TB) { a = P.xp; b = TA; }
+                    if (i == TC) a = TB;
                 }
+                // a compute node is due in this cycle when one of its inputs ticked (all inputs are active and unchecked);
+                // not modelled for the consumers of a reference / of the try_except result bundle
+                if (i != RC && i != TC) {
+                    dueknown[i] = true;
+                    due[i] = (a >= 0 && ticked[a]) || (b >= 0 && ticked[b]) || (c3 >= 0 && ticked[c3]);
+                }
+                // this node ran: every producer that was due in this cycle must have had its turn (and, by the order
+                // oracle above, before this node)
+                if (rec != nullptr)
+                    for (int j = 0; j < P.nuser; j++)
+                        if (P.reads[i][j] && dueknown[j] && due[j] && !ran[j]) ok_due = false;
                 if (rec != nullptr) {
                     Int want = (a >= 0 && has[a] ? cur[a] : Int{0}) + (b >= 0 ? 3 * (has[b] ? cur[b] : Int{0}) : Int{0}) +
                                (c3 >= 0 ? 9 * (has[c3] ? cur[c3] : Int{0}) : Int{0}) + node_const(i);
                     ok_val &= rec->value == want;
-                    cur[i] = rec->value;
-                    has[i] = true;
-                    ticked[i] = true;
+                    const bool threw_here = i == TB && c == g_throw_cycle;  // the evaluation failed before writing its output
+                    if (!threw_here) {
+                        cur[i] = rec->value;
+                        has[i] = true;
+                        ticked[i] = true;
+                    }
+                    if (i == TB && g_throw_cycle >= 0 && c > g_throw_cycle) r_after_failure = true;
                     if (a >= 0 && b >= 0 && a != b && ticked[a] && ticked[b]) r_multi = true;
                 }
             }
         }
     }
     verif_assert(ok_val, "C01.value_read_before_producer_updated");
+    verif_assert(ok_due, "C01.consumer_ran_without_due_producer");
+    if (r_after_failure) verif_reach("child_cycle_after_captured_failure");
 
     for (int i = 0; i < P.nuser; i++)
         for (int j = 0; j < P.nuser; j++)
